@@ -10,8 +10,8 @@ import (
 func init() {
 	register(&Property{
 		Meta: PropMeta{
-			ID:    "C06",
-			Level: "other",
+			ID:          "C06",
+			Level:       "other",
 			Explanation: "Structural necessary conditions of required-item enforcement, decided on the SSA of /repo for all paths: checkRequired is called only when parseState.err == nil and after the defaults pass, and every command dispatch must pass through it (path rules with path-sensitive pruning); the walk variable of checkRequired starts at Parser.Command, advances by .Active only, and the walk loop can only be left when the variable itself is nil (innermost command included), and checkRequired does not reach eachCommand/eachOption; an option is collected exactly under ¬isSet ∧ Required (control-dependence closure of the append: no other guard), over every option of every nested group; positional constraints are evaluated only when no option is missing, against Arg.Required/RequiredMaximum, Value.Len of Arg.value and ArgsRequired of the *active* command; both failing exits store a newError(ErrRequired, …) into parseState.err before returning it; every element of the missing list is named (no filter); Option.isSet is stored only by Option.Set, with constant true, on every path to every return of Set.",
 			NotDecided:  "message wording; N-M arithmetic on all counts; that each spelling of an occurrence reaches Option.Set (C02).",
 			Trusted:     []string{"go/ssa lowering", "go/types", "CFG over-approximation with contradictory-condition pruning", "post-dominator based control dependence"},
